@@ -73,10 +73,15 @@ def manifest(steps, pools=(), builddir=None):
         out.append(b)
     return "\n".join(out) + "\n"
 
-def run_n2(n2, cwd, args, timeout=120, use_pty=None):
+def run_n2(n2, cwd, args, timeout=120, use_pty=None, stack_mb=None):
     if use_pty is None:
+        pre = None
+        if stack_mb:
+            def pre():
+                import resource
+                resource.setrlimit(resource.RLIMIT_STACK, (stack_mb << 20, stack_mb << 20))
         p = subprocess.run([n2] + args, cwd=cwd, stdin=subprocess.DEVNULL, stdout=subprocess.PIPE,
-                           stderr=subprocess.STDOUT, timeout=timeout)
+                           stderr=subprocess.STDOUT, timeout=timeout, preexec_fn=pre)
         return p.returncode, p.stdout
     cols = use_pty
     m, s = pty.openpty()
@@ -454,6 +459,20 @@ def generate_and_run(tier, seed, wdir):
                     r3, o3 = run_n2(n2, base, ["-j", "1"], timeout=300)
                     ev.append({"e": "xeq", "props": ["C08"], "tag": "record-%d-deps-dirty" % ndeps,
                                "a": [r3, "ran 2 tasks" in o3.decode("utf-8", "replace")], "b": [0, True]})
+        # 8c. deep graphs (C06: every acyclic graph; C12: every manifest): a chain of N steps, the
+        #     last one requested with restat (nothing has to run, so only loading, wanting and
+        #     checking are exercised)
+        for depth in (2000, 100000):
+            base = os.path.join(root, "deep%d" % depth); shutil.rmtree(base, ignore_errors=True); os.makedirs(base)
+            with open(os.path.join(base, "build.ninja"), "w") as f:
+                f.write("rule t\n  command = touch $out\nbuild o0: t\n")
+                for i in range(1, depth):
+                    f.write("build o%d: t o%d\n" % (i, i - 1))
+            ev.append({"e": "xscn", "id": "deep-chain-%d" % depth})
+            rc, out = run_n2(n2, base, ["-j", "2", "-d", "ninja_compat", "-t", "restat", "o%d" % (depth - 1)], timeout=300,
+                             stack_mb=8)      # the usual main-thread stack, whatever the caller's limit
+            ev.append({"e": "xeq", "props": ["C06", "C12"], "tag": "deep-chain-%d" % depth,
+                       "a": [rc, b"n2: no work to do" in out], "b": [0, True]})
         # 9. a tty changes nothing about the build (C20 isolation clause)
         for cols in (10, 11, 20, 80):
             desc = "übergroße Beschreibung — ☃☃☃☃☃☃☃☃☃☃ 𝄞𝄞𝄞 long enough to be cut somewhere"
